@@ -26,11 +26,66 @@ def mk_grid(k):
         return fm.UniformGrid((3, 4), data_location="POINTS")
     if k == "Gother":
         return fm.UniformGrid((4, 4))
+    if k == "Gflip":  # same locations and array shape as G, second axis running downwards
+        return fm.UniformGrid((3, 4), axes_increase=(True, False))
+    if k == "Erev":  # same locations as G, axes reversed (array shape of the ESRI grid), second axis upwards
+        return fm.UniformGrid((3, 4), axes_reversed=True)
+    if k == "Esri":  # ESRI layout: axes reversed, second axis downwards
+        return fm.EsriGrid(ncols=2, nrows=3)
+    if k in RECT:
+        return fm.RectilinearGrid([np.array(RECT[k][0], dtype=float), np.array(RECT[k][1], dtype=float)])
     if k in ("Uc", "Up"):  # an unstructured mesh with as many cells as nodes: per-cell and per-node data have the same shape
         pts = [[0.0, 0.0], [2.0, 0.0], [2.0, 2.0], [0.0, 2.0], [1.0, 1.0]]
         cells = [[0, 1, 4], [1, 2, 4], [2, 3, 4], [3, 0, 4], [0, 1, 2]]
         return fm.UnstructuredGrid(pts, cells, [fm.CellType.TRI] * 5, data_location="CELLS" if k == "Uc" else "POINTS")
     raise ValueError(k)
+
+
+RECT = {  # node coordinates per axis: the uniform 3x4 grid, two grids with the same node count and extent but other interior nodes, and the uniform one given downwards
+    "Runi": ([0, 1, 2], [0, 1, 2, 3]),
+    "R1": ([0, 1, 2], [0, 0.5, 2.5, 3]),
+    "R2": ([0, 1, 2], [0, 2, 2.5, 3]),
+    "Rdown": ([0, 1, 2], [3, 2, 1, 0]),
+}
+OWN = {"G": (False, False), "Gflip": (False, True), "Glay": (True, True), "Erev": (True, False), "Esri": (True, True)}  # kind -> (axes reversed, second axis downwards)
+
+
+def own_points(k):
+    """array index -> cell centre, from the documented layout rules and the node coordinates alone (independent of the library's grid code)"""
+    if k in OWN:
+        xs, ys, (rev, down) = [0, 1, 2], [0, 1, 2, 3], OWN[k]
+    elif k in RECT:
+        xs, ys = RECT[k]
+        rev, down = False, False
+    else:
+        return None
+    cx = [(a + b) / 2 for a, b in zip(xs[:-1], xs[1:])]
+    cy = [(a + b) / 2 for a, b in zip(ys[:-1], ys[1:])]
+    if down:
+        cy = cy[::-1]
+    return {((j, i) if rev else (i, j)): (float(x), float(y)) for i, x in enumerate(cx) for j, y in enumerate(cy)}
+
+
+def located_kind(k):
+    op = own_points(k)
+    if op is None:
+        return located(mk_grid(k))
+    return ("CELLS", True, tuple(sorted((round(x, 9), round(y, 9)) for x, y in op.values())))
+
+
+def masked_set(k, mk):
+    """physical locations hidden by mask kind mk on grid kind k (None if not an array mask)"""
+    if mk == "nomask":
+        return frozenset()
+    if mk not in ("M", "M2", "Ma"):
+        return None
+    g = mk_grid(k)
+    arr = mk_mask(mk, g)
+    op = own_points(k)
+    if op is None:
+        pts = np.asarray(g.data_points).reshape(tuple(int(s) for s in g.data_shape) + (-1,), order=g.order)
+        return frozenset(tuple(round(float(x), 9) for x in pts[idx]) for idx in np.ndindex(arr.shape) if arr[idx])
+    return frozenset(op[idx] for idx in np.ndindex(arr.shape) if arr[idx])
 
 
 def located(g):
@@ -58,6 +113,10 @@ def mk_mask(k, g):
         return Mask.NONE
     if k == "nomask":
         return np.ma.nomask
+    if k == "Ma":  # the same ARRAY whatever the grid: on grids of equal shape but other orientation it hides other locations
+        a = np.zeros(tuple(int(x) for x in g.data_shape), dtype=bool)
+        a.flat[0] = a.flat[1] = True
+        return a
     return phys_mask(k, g, k)
 
 
@@ -200,6 +259,9 @@ def mask_verdict(p, c):
         return True if pm == "NONE" else (None if pm == "nomask" else False)
     if pm in ("FLEX", "NONE"):
         return False if cm in ("M", "M2") else (None if pm == "NONE" else False)
+    if "Ma" in (pm, cm) or own_points(p["grid"]) is not None or own_points(c["grid"]) is not None:
+        a, b = masked_set(p["grid"], pm), masked_set(c["grid"] if c["grid"] != "unset" else p["grid"], cm)
+        return a == b
     same = {"nomask": "empty", "M": "M", "M2": "M2"}
     return same[pm] == same[cm]
 
@@ -221,7 +283,7 @@ def verdict(p, c, via):
         if pg == "unset" or cg == "unset":
             fields.append(not (pg == "unset" and cg == "unset"))
         else:
-            fields.append(located(mk_grid(pg)) == located(mk_grid(cg)))
+            fields.append(located_kind(pg) == located_kind(cg))
     # units
     pu, cu = p["units"], c["units"]
     if via == "SumOverTime":
@@ -457,7 +519,7 @@ def side(**kw):
 
 
 def mask_ok_for(grid, mask):
-    return mask not in ("M", "M2") or grid in ("G", "Glay", "Gloc", "Gother", "Uc", "Up")
+    return mask not in ("M", "M2", "Ma") or grid not in ("unset", "nogrid")
 
 
 def items(tier):
@@ -480,6 +542,16 @@ def items(tier):
                 for pu, cu in itertools.product(UNITS_, repeat=2):
                     for pt in ("unset", "set"):
                         out.append([side(grid=pg, units=pu, time=pt), [side(grid=cg, units=cu)], via, list(order)])
+    # orientation and spacing of structured grids x array masks: equal arrays on differently oriented grids hide different locations; rectilinear grids
+    # with equal node count and extent but other interior nodes are different grids
+    g2 = ["G", "Gflip", "Glay", "Erev", "Esri", "Runi", "R1", "R2", "Rdown"]
+    m2 = ["FLEX", "nomask", "M", "Ma"]
+    for via in (None, "Scale"):
+        for order in orders1:
+            for pg, cg in itertools.product(g2, g2 + ["unset"]):
+                for pm, cm in itertools.product(m2, m2 + ["unset"]):
+                    if mask_ok_for(cg, cm):
+                        out.append([side(grid=pg, mask=pm), [side(grid=cg, mask=cm)], via, list(order)])
     # two consumers on one output: the first requesting target fills unset producer fields, later ones are checked against it
     c_opts = [side(grid=g, units=u) for g in ("unset", "G", "Glay", "Gother") for u in ("unset", "km", "s")]
     p_opts = [side(grid=g, units=u, time=t) for g in ("unset", "G", "Glay") for u in ("unset", "m") for t in ("unset", "set")]
@@ -522,6 +594,7 @@ def run(tier, seed, agg):
     return dict(
         level="exploration",
         rule="producer/consumer field states enumerated as complete sub-products: grid{unset,NoGrid,G,G re-laid-out,G other location,other geometry}^2 x mask{unset,FLEX,NONE,nomask,M,M'}^2; time{unset,set}^2 x units{unset,m,km,s}^2 x extra key{absent,unset,v,w}^2; "
+        "structured grids in five orientations/axis orders + four rectilinear node sets (equal extent, other interior nodes; downwards axis) x masks{FLEX, empty, physical set, fixed index array}, with cell centres and hidden locations computed here from the layout rules; "
         "grid^2 x units^2 x producer time; two consumers per output (12 producer x 12^2 consumer states, three listing orders); GridToValue / ValueToGrid / SumOverTime(per_time) links; link direct or through Scale; both listing orders; "
         "each run through the real Composition.connect. Oracle: an independent agree(producer, consumer) predicate; on success the input info is complete, describes the delivered locations, has convertible units and carries the other side's values for unset fields (both directions); "
         "on conflict FinamMetaDataError and no data at any consumer. non-trivial = decided cases with at least one unset field",
